@@ -3,6 +3,8 @@
 use std::fmt;
 
 use crate::ctx;
+#[cfg(era_consensus_verif)]
+use crate::verif::net_shim as tokio;
 
 pub mod tcp;
 
